@@ -52,6 +52,14 @@ Lemma consts_callers_ok :
   clean_sites_Lock = [0; 0; 0]%nat /\ clean_sites_Unlock = [0; 0; 0]%nat.
 Proof. repeat split; reflexivity. Qed.
 
+(** FileStorage.Delete is os.RemoveAll of the key's path (the key and everything below: [remove]; in part when it
+    fails half-way: [removep]) and a missing key is not an error (translator item emitC18FsDelete) *)
+Lemma consts_fs_delete_ok :
+  clean_fs_delete_fn = [111; 115; 46; 82; 101; 109; 111; 118; 101; 65; 108; 108]%N /\   (* "os.RemoveAll" *)
+  clean_fs_delete_arg = [115; 46; 70; 105; 108; 101; 110; 97; 109; 101; 40; 107; 101; 121; 41]%N /\   (* "s.Filename(key)" *)
+  clean_fs_delete_missing_ok = true.
+Proof. repeat split; reflexivity. Qed.
+
 (** * Strings *)
 Lemma seqb_eq a b : seqb a b = true <-> a = b.
 Proof.
